@@ -223,6 +223,10 @@ class _CommonVisitors(visitor.NodeVisitor):
         except AttributeError:
             raise ex.UnsupportedFunctionException(node.func.name)
 
+        if any(isinstance(arg, ast.List) for arg in node.args):
+            # None of the functions below can handle a collection:
+            raise ex.UnsupportedFunctionException(node.func.name + "<List>")
+
         return handler(*node.args)
 
     def func_contains(self, field: ast._Node, substr: ast._Node) -> ClauseElement:
